@@ -117,6 +117,37 @@ def lean_audit(theorems, imports=("Verif",)):
             "missing": missing, "extra_axioms": extra, "raw": ax.get("raw", "")[-2000:]}
 
 
+def table_obligation(tb):
+    """An obligation over the lock-shape table regenerated from /repo's current headers (tools/lockshape.py):
+    tb = dict(target=<Lean module>, pred=<Method predicate>, classes=<class indices>, theorems=[...]).
+    Returns (ok, audit, note)."""
+    empty = {"ok": False, "axioms": {}, "missing": list(tb["theorems"]), "forbidden": [], "extra_axioms": {}}
+    r = sh(["python3", os.path.join(ROOT, "tools", "lockshape.py"), "--repo", REPO])
+    if r.returncode != 0:
+        return False, empty, "tools/lockshape.py failed on the current headers:\n" + (r.stdout + r.stderr)[-1500:]
+    b = sh(["lake", "build", tb["target"]], cwd=LEAN)
+    if b.returncode != 0:
+        src = ("import Verif.Conc.ClockHeld\nimport Verif.Generated.LockShape\nopen Verif.Conc in\n"
+               "#eval (Generated.table.filter (fun m => %s.contains m.cls && !m.%s Generated.table)).map (·.name)\n"
+               % (list(tb["classes"]), tb["pred"]))
+        tmp = os.path.join(CACHE, "badt-%d.lean" % os.getpid())
+        open(tmp, "w").write(src)
+        e = sh(["lake", "env", "lean", tmp], cwd=LEAN)
+        os.unlink(tmp)
+        names = re.findall(r'"([^"]+)"', e.stdout)
+        sm = sh(["python3", os.path.join(ROOT, "tools", "lockshape.py"), "--repo", REPO, "--summary"])
+        shapes = {}
+        for l in sm.stdout.splitlines():
+            t = l.split(None, 2)
+            if len(t) == 3:
+                shapes[t[0] + "." + t[1]] = t[2]
+        note = "lake build %s fails on the table regenerated from the current headers; methods without the shape `%s`:\n" % (tb["target"], tb["pred"])
+        note += "\n".join("  %s : %s" % (n, shapes.get(n, "?")) for n in names) or (b.stdout + b.stderr)[-1500:]
+        return False, empty, note
+    a = lean_audit(tb["theorems"], imports=("Verif", tb["target"]))
+    return a["ok"], a, "" if a["ok"] else "audit of %s failed: missing %s, axioms %s" % (tb["target"], a["missing"], a["extra_axioms"])
+
+
 def lean_audit_conc(theorems):
     return lean_audit(theorems, imports=("Verif", "Verif.Conc.RaceFreeTable"))
 
@@ -542,6 +573,12 @@ def main_seq(prop, tier, seed, t0):
     ok, log = lean_build()
     audit = lean_audit(spec["theorems"]) if ok else {"ok": False, "axioms": {}, "missing": spec["theorems"], "forbidden": [], "extra_axioms": {}}
     lean_ok = ok and audit["ok"]
+    tnote = ""
+    if ok and spec.get("table"):
+        tok, taudit, tnote = table_obligation(spec["table"])
+        lean_ok = lean_ok and tok
+        audit = dict(audit, axioms=dict(audit["axioms"], **taudit["axioms"]), missing=audit["missing"] + taudit["missing"],
+                     extra_axioms=dict(audit["extra_axioms"], **taudit["extra_axioms"]), ok=audit["ok"] and tok)
     # 2. harness (C08: with the friend hook, so that the private structure can be compared)
     struct = bool(spec.get("struct"))
     exe, hlog = harness_build(hooks=struct)
@@ -588,7 +625,7 @@ def main_seq(prop, tier, seed, t0):
         rc = 1
     elif not lean_ok:
         note = "the Lean side no longer checks for %s\nmissing theorems: %s\nforbidden constructs: %s\nunexpected axioms: %s\n%s" % (
-            prop, audit.get("missing"), audit.get("forbidden"), audit.get("extra_axioms"), "" if ok else log[-3000:])
+            prop, audit.get("missing"), audit.get("forbidden"), audit.get("extra_axioms"), tnote if ok else log[-3000:])
         path = write_replay(prop, seed, 0, ["# no script"], note)
         print("VIOLATION property=%s replay=%s no-failing-input-found" % (prop, path))
         violations = 1
@@ -611,7 +648,7 @@ def finish(prop, tier, seed, t0, spec, audit, scripts, results, ncorpus, violati
     samples = []
     for r in results[ncorpus:ncorpus + 2]:
         samples.append({"cfg": r.script[0], "ops": ops_of(r.script)[:12], "n_ops": len(ops_of(r.script))})
-    thms = spec["theorems"]
+    thms = spec["theorems"] + (spec["table"]["theorems"] if spec.get("table") else [])
     discharged = [t for t in thms if t in audit.get("axioms", {})]
     ev = {
         "property_id": prop,
@@ -621,8 +658,9 @@ def finish(prop, tier, seed, t0, spec, audit, scripts, results, ncorpus, violati
         "coverage": {
             "obligations": max(1, len(thms)),
             "discharged": len(discharged) if audit.get("ok") else 0,
-            "checker_cmd": "cd /verif/lean && lake build && lake env lean <#print axioms of the theorems below>",
-            "trusted_base": P.TRUSTED_BASE,
+            "checker_cmd": "cd /verif/lean && lake build && lake env lean <#print axioms of the theorems below>" + (
+                "; python3 tools/lockshape.py && lake build %s (table obligation, regenerated from the current headers)" % spec["table"]["target"] if spec.get("table") else ""),
+            "trusted_base": P.TRUSTED_BASE + (["tools/lockshape.py (clang 14 JSON AST walk) for the table obligation; `decide +kernel` evaluates it in the kernel"] if spec.get("table") else []),
             "theorems": thms,
             "axioms_per_theorem": audit.get("axioms", {}),
             "forbidden_constructs_found": audit.get("forbidden", []),
